@@ -1837,3 +1837,29 @@ impl Actions {
         self.send.clear_queues(store, counts);
     }
 }
+
+#[cfg(feature = "verif-hooks")]
+impl<B, P> Streams<B, P>
+where
+    P: Peer,
+{
+    /// Copies a read-only snapshot of the shared state, taking the locks in the
+    /// library's own order (`inner`, then `send_buffer`).
+    pub(crate) fn verif_snapshot(&self) -> crate::verif::Snapshot {
+        let me = self.inner.lock().unwrap();
+        let send_buffer = self.send_buffer.inner.lock().unwrap();
+        let (slab_len, ids_len, streams) = me.store.verif_snap();
+        crate::verif::Snapshot {
+            slab_len,
+            ids_len,
+            send_buffer_len: send_buffer.verif_len(),
+            refs: me.refs,
+            counts: me.counts.verif_snap(),
+            send: me.actions.send.verif_snap(),
+            recv: me.actions.recv.verif_snap(),
+            has_task: me.actions.task.is_some(),
+            conn_error: me.actions.conn_error.as_ref().map(|e| format!("{:?}", e)),
+            streams,
+        }
+    }
+}
